@@ -1,4 +1,5 @@
-(** C16 -- copies: a copy is [==] to its original; its handles are fresh, so by the frame
+(** C16 -- copies: a copy is [==] to its original and SHOWS exactly what its original shows
+    (label tables, domains and factor weights included); its handles are fresh, so by the frame
     theorem no later call on either changes what the other shows. *)
 From Coq Require Import List Arith Bool Lia.
 Import ListNotations.
@@ -6,128 +7,120 @@ Require Import Fggs.Model.GraphAPI Fggs.Proofs.GraphAPI_assoc Fggs.Proofs.GraphA
         Fggs.Proofs.GraphAPI_graph Fggs.Proofs.GraphAPI_hrg Fggs.Proofs.GraphAPI_inv
         Fggs.Proofs.GraphAPI_atomic Fggs.Proofs.GraphAPI_eq Fggs.Proofs.GraphAPI_frame.
 
-(** * a copied graph equals its original *)
-Lemma nodes_phase_sub : forall l c0 c1 r,
-    fold_err g_add_node l c0 = (c1, r) ->
-    forall k v, aget ident_eq_dec (g_nodes c1) k = Some v ->
-                aget ident_eq_dec (g_nodes c0) k = Some v \/ (In v l /\ k = n_id v).
+(** * a copied graph has the very same containers as its original *)
+Lemma aset_new : forall {K V} (Keq : forall a b : K, {a = b} + {a <> b}) (m : list (K * V)) k v,
+    aget Keq m k = None -> aset Keq m k v = m ++ [(k, v)].
 Proof.
-  induction l as [|n l IH]; intros c0 c1 r E k v H; cbn in E.
-  - inversion E; subst. left. assumption.
-  - unfold g_add_node in E at 1.
+  induction m as [|[a b] m IH]; intros k v H; cbn in *; [reflexivity|].
+  destruct (Keq a k); [discriminate|]. f_equal. apply IH. assumption.
+Qed.
+
+Lemma nodes_phase_list : forall (l : list (ident * node)) c0 c1 r,
+    fold_err g_add_node (map snd l) c0 = (c1, r) -> is_err r = false ->
+    (forall k v, In (k, v) l -> k = n_id v) ->
+    g_nodes c1 = g_nodes c0 ++ l.
+Proof.
+  induction l as [|[k n] l IH]; intros c0 c1 r E NE KV; cbn in E.
+  - inversion E; subst. rewrite app_nil_r. reflexivity.
+  - unfold g_add_node in E at 1. cbn [snd] in E.
     destruct (amem ident_eq_dec (g_nodes c0) (n_id n)) eqn:M.
-    + inversion E; subst. left. assumption.
-    + destruct (IH _ _ _ E _ _ H) as [X|[X Y]]; [|right; split; [right; assumption | assumption]].
-      cbn in X. rewrite aget_aset in X. destruct (ident_eq_dec (n_id n) k) as [<-|N].
-      * inversion X; subst. right. split; [left; reflexivity | reflexivity].
-      * left. assumption.
+    + inversion E; subst. discriminate.
+    + rewrite (IH _ _ _ E NE) by (intros; apply KV; right; assumption).
+      cbn. apply amem_false in M. rewrite (aset_new ident_eq_dec _ _ _ M).
+      rewrite <- app_assoc. cbn. rewrite (KV k n (or_introl eq_refl)). reflexivity.
 Qed.
 
-Lemma g_add_edge_nodes_same : forall g e,
-    tab_ok (g_tab g) -> (forall n, In n (e_nodes e) -> has_node g n) ->
-    g_nodes (fst (g_add_edge g e)) = g_nodes g.
+Lemma g_add_edge_result : forall g e, snd (g_add_edge g e) = ROk \/ snd (g_add_edge g e) = RErr ValueErr.
 Proof.
-  intros g e T H.
-  assert (ID : g_add_missing g (e_nodes e) = g).
-  { apply add_missing_id. intros n Hn. apply amem_true. exists n. apply H. assumption. }
-  destruct (g_add_edge_cases g e T) as [[E _]|[[E _]|(t' & E & _)]]; rewrite E; cbn [fst]; rewrite ?ID; reflexivity.
+  intros g e. destruct (g_add_edge_cases g e) as [E|(add & t' & _ & E & _)]; rewrite E; cbn; auto.
 Qed.
 
-Lemma g_add_edge_stores : forall g e,
-    tab_ok (g_tab g) -> snd (g_add_edge g e) = ROk ->
-    In (e_id e, e) (g_edges (fst (g_add_edge g e))) /\
-    forall k0 e0, In (k0, e0) (g_edges g) -> In (k0, e0) (g_edges (fst (g_add_edge g e))).
+(** all attachment nodes present: a successful add_edge appends the edge and leaves the nodes alone *)
+Lemma g_add_edge_list : forall g e,
+    (forall n, In n (e_nodes e) -> has_node g n) -> snd (g_add_edge g e) = ROk ->
+    g_edges (fst (g_add_edge g e)) = g_edges g ++ [(e_id e, e)] /\ g_nodes (fst (g_add_edge g e)) = g_nodes g.
 Proof.
-  intros g e T R.
-  destruct (g_add_edge_cases g e T) as [[E _]|[[E _]|(t' & E & M & _)]]; rewrite E in *; cbn [fst snd] in *; try discriminate.
-  cbn. split; [apply aget_In with (Keq := ident_eq_dec); apply aget_aset_same|].
-  intros k0 e0 H. apply In_aset_old; [|assumption].
-  intro Ek. subst k0. apply amem_false in M. apply aget_None in M. apply M.
-  change (e_id e) with (fst (e_id e, e0)). apply in_map. assumption.
+  intros g e H R.
+  destruct (g_add_edge_cases g e) as [E|(add & t' & CN & E & M & _)]; rewrite E in *; cbn [fst snd] in *; [discriminate|].
+  rewrite (check_new_all_present (e_nodes e) (g_nodes g) H) in CN. inversion CN; subst add.
+  cbn. apply amem_false in M. rewrite (aset_new ident_eq_dec _ _ _ M). auto.
 Qed.
 
-Lemma g_add_edge_result : forall g e, tab_ok (g_tab g) ->
-    snd (g_add_edge g e) = ROk \/ snd (g_add_edge g e) = RErr ValueErr.
+Lemma edges_phase_list : forall (l : list (ident * edge)) c1 c2 r,
+    fold_err g_add_edge (map snd l) c1 = (c2, r) -> is_err r = false ->
+    (forall k e n, In (k, e) l -> In n (e_nodes e) -> has_node c1 n) ->
+    (forall k e, In (k, e) l -> k = e_id e) ->
+    g_edges c2 = g_edges c1 ++ l /\ g_nodes c2 = g_nodes c1.
 Proof.
-  intros g e T. destruct (g_add_edge_cases g e T) as [[E _]|[[E _]|(t' & E & _)]]; rewrite E; cbn; auto.
-Qed.
-
-Lemma edges_phase_all : forall l c1 c2 r,
-    fold_err g_add_edge l c1 = (c2, r) -> is_err r = false -> tab_ok (g_tab c1) ->
-    (forall e n, In e l -> In n (e_nodes e) -> has_node c1 n) ->
-    g_nodes c2 = g_nodes c1 /\
-    (forall e, In e l -> In (e_id e, e) (g_edges c2)) /\
-    (forall k0 e0, In (k0, e0) (g_edges c1) -> In (k0, e0) (g_edges c2)).
-Proof.
-  induction l as [|e l IH]; intros c1 c2 r E NE T HN; cbn in E.
-  - inversion E; subst. split; [reflexivity|]. split; [intros ? []|auto].
-  - pose proof (g_add_edge_nodes_same c1 e T (fun n Hn => HN e n (or_introl eq_refl) Hn)) as NS.
-    pose proof (g_add_edge_stores c1 e T) as ST. pose proof (g_add_edge_tab c1 e T) as T'.
-    pose proof (g_add_edge_result c1 e T) as RR.
+  induction l as [|[k e] l IH]; intros c1 c2 r E NE HN KV; cbn in E.
+  - inversion E; subst. rewrite app_nil_r. auto.
+  - cbn [snd] in E.
+    pose proof (g_add_edge_list c1 e (fun n Hn => HN k e n (or_introl eq_refl) Hn)) as GL.
+    pose proof (g_add_edge_result c1 e) as RR.
     destruct (g_add_edge c1 e) as [c1' r1]. cbn [fst snd] in *.
     destruct RR as [->| ->].
     2:{ inversion E; subst. discriminate. }
-    destruct (IH _ _ _ E NE T') as (A & B & C).
-    { intros e0 n H1 H2. unfold has_node. rewrite NS. eapply HN; [right; eassumption | assumption]. }
-    destruct (ST eq_refl) as [S1 S2]. split; [congruence|]. split.
-    + intros e0 [<-|H]; [apply C; assumption | apply B; assumption].
-    + intros k0 e0 H. apply C, S2. assumption.
+    destruct (GL eq_refl) as [G1 G2].
+    destruct (IH _ _ _ E NE) as [A B].
+    { intros k0 e0 n H1 H2. unfold has_node. rewrite G2. eapply HN; [right; eassumption | assumption]. }
+    { intros; apply KV; right; assumption. }
+    rewrite A, B, G1, G2. split; [|reflexivity].
+    rewrite <- app_assoc. cbn. rewrite (KV k e (or_introl eq_refl)). reflexivity.
 Qed.
 
-(** two dicts with distinct keys and the same entries agree on every key *)
-Lemma same_entries_aget : forall {K V} (Keq : forall a b : K, {a = b} + {a <> b}) (m1 m2 : list (K * V)),
-    NoDup (map fst m1) -> NoDup (map fst m2) ->
-    (forall k v, In (k, v) m1 -> In (k, v) m2) -> (forall k v, In (k, v) m2 -> In (k, v) m1) ->
-    forall k, aget Keq m1 k = aget Keq m2 k.
+Theorem g_copy_same : forall g c, graph_ok g -> g_copy g = inl c ->
+    g_fg c = g_fg g /\ g_nodes c = g_nodes g /\ g_edges c = g_edges g /\ g_ext c = g_ext g /\
+    t_nl (g_tab c) = t_nl (g_tab g) /\ t_el (g_tab c) = t_el (g_tab g) /\
+    (g_fg g = true -> t_dom (g_tab c) = t_dom (g_tab g) /\ t_fac (g_tab c) = t_fac (g_tab g)) /\
+    (g_fg g = false -> t_dom (g_tab c) = [] /\ t_fac (g_tab c) = []).
 Proof.
-  intros K V Keq m1 m2 N1 N2 I12 I21 k.
-  destruct (aget Keq m1 k) as [v|] eqn:E1.
-  - symmetry. apply In_aget; [assumption|]. apply I12. eapply aget_In; eauto.
-  - destruct (aget Keq m2 k) as [v|] eqn:E2; [|reflexivity].
-    apply aget_In in E2. apply I21 in E2. apply (In_aget Keq _ _ _ N1) in E2. congruence.
+  intros g c OK E. pose proof (g_copy_plain g c E) as PL. unfold g_copy in E. destruct (g_fg g) eqn:FG.
+  - destruct (fold_err g_add_node (map snd (g_nodes g)) (empty_graph true)) as [c1 r1] eqn:E1.
+    assert (NE1 : is_err r1 = false) by (destruct r1; [reflexivity | reflexivity | discriminate]).
+    pose proof (nodes_phase_list _ _ _ _ E1 NE1 (proj2 (gk_nodes _ OK))) as N1. cbn in N1.
+    destruct (nodes_phase _ _ _ _ E1) as [G1 _].
+    assert (E' : match fold_err g_add_edge (map snd (g_edges g)) c1 with
+                 | (_, RErr k) => inr k
+                 | (c0, _) => inl (gset_tab (gset_ext c0 (g_ext g))
+                                            (mkT (t_nl (g_tab g)) (t_el (g_tab g)) (t_dom (g_tab g)) (t_fac (g_tab g))))
+                 end = inl c) by (destruct r1; [exact E | exact E | discriminate]).
+    clear E. destruct (fold_err g_add_edge (map snd (g_edges g)) c1) as [c2 r2] eqn:E2.
+    assert (NE2 : is_err r2 = false) by (destruct r2; [reflexivity | reflexivity | discriminate]).
+    destruct (edges_phase_list _ _ _ _ E2 NE2) as [ED NS].
+    { intros k e n He Hn. pose proof (gk_att _ OK _ _ _ He Hn) as X. unfold has_node in *. rewrite N1. exact X. }
+    { apply (gk_edges _ OK). }
+    rewrite (gr_edges _ _ G1) in ED. cbn in ED.
+    assert (Ec : c = gset_tab (gset_ext c2 (g_ext g))
+                              (mkT (t_nl (g_tab g)) (t_el (g_tab g)) (t_dom (g_tab g)) (t_fac (g_tab g))))
+      by (destruct r2; inversion E'; reflexivity).
+    assert (F : g_fg c = true).
+    { unfold plain_obj, plain_tab in PL. destruct (g_fg c) eqn:Fc; [reflexivity|].
+      subst c. cbn in *. clear - Fc E2 G1.
+      pose proof (fold_err_pres (fun x => g_fg x = true) g_add_edge
+                    (fun a x H => eq_trans (proj1 (g_add_edge_keeps_interp a x)) H) (map snd (g_edges g)) c1) as FP.
+      rewrite E2 in FP. cbn in FP. rewrite FP in Fc; [discriminate|]. rewrite (gr_fg _ _ G1). reflexivity. }
+    subst c. cbn in *. rewrite NS, N1, ED. repeat split; auto; intros; discriminate.
+  - inversion E; subst c. cbn. repeat split; auto; intros; discriminate.
 Qed.
 
 Theorem g_copy_eq : forall g c, graph_ok g -> g_copy g = inl c -> graph_eqb g c = true.
 Proof.
-  intros g c OK E.
+  intros g c OK E. destruct (g_copy_same g c OK E) as (_ & N & Ed & X & _).
+  assert (K : graph_keys g) by (apply graph_ok_keys; assumption).
+  apply graph_eqb_spec; [assumption | destruct K; split; congruence|].
+  rewrite N, Ed, X. auto.
+Qed.
+
+(** the copy of a graph shows exactly what its original shows *)
+Theorem g_copy_observe : forall g c,
+    graph_ok g -> plain_obj (OG g) -> g_copy g = inl c -> obs_obj (OG c) = obs_obj (OG g).
+Proof.
+  intros g c OK PL E. destruct (g_copy_same g c OK E) as (F & N & Ed & X & NL & EL & IT & IF).
+  unfold obs_obj, g_type, obs_tab. rewrite F, N, Ed, X, NL, EL.
   destruct (g_fg g) eqn:FG.
-  2:{ unfold g_copy in E. rewrite FG in E. inversion E; subst.
-      apply graph_eqb_spec; [apply graph_ok_keys; assumption | split; cbn; [apply (gk_nodes _ OK) | apply (gk_edges _ OK)] |].
-      cbn. auto. }
-  assert (PG : plain_copy_ok g = true) by (unfold plain_copy_ok; rewrite FG; reflexivity).
-  destruct (g_copy_ok g c OK E PG) as (OKc & Xc & Dc).
-  unfold g_copy in E. rewrite FG in E.
-  destruct (fold_err g_add_node (map snd (g_nodes g)) (empty_graph true)) as [c1 r1] eqn:E1.
-  destruct (nodes_phase _ _ _ _ E1) as [G1 H1].
-  pose proof (nodes_phase_sub _ _ _ _ E1) as S1.
-  assert (NE1 : is_err r1 = false) by (destruct r1; [reflexivity | reflexivity | discriminate]).
-  assert (E' : match fold_err g_add_edge (map snd (g_edges g)) c1 with
-               | (_, RErr k) => inr k
-               | (c0, _) => inl (gset_tab (gset_ext c0 (g_ext g))
-                                          (set_fac (set_dom (g_tab c0) (t_dom (g_tab g))) (t_fac (g_tab g))))
-               end = inl c) by (destruct r1; [exact E | exact E | discriminate]).
-  clear E. destruct (fold_err g_add_edge (map snd (g_edges g)) c1) as [c2 r2] eqn:E2.
-  assert (NE2 : is_err r2 = false) by (destruct r2; [reflexivity | reflexivity | discriminate]).
-  assert (HAS : forall n, has_node g n -> has_node c1 n).
-  { intros n Hn. apply H1; [assumption|]. apply aget_In in Hn. change n with (snd (n_id n, n)). apply in_map. assumption. }
-  pose proof (gr_tab _ _ G1 tab_ok_empty) as T1.
-  destruct (edges_phase_all _ _ _ _ E2 NE2 T1) as (A & B & C).
-  { intros e n He Hn. apply in_map_iff in He. destruct He as [[k e'] [<- He]]. apply HAS. eapply (gk_att _ OK); eauto. }
-  assert (Ec : g_nodes c = g_nodes c1 /\ g_edges c = g_edges c2 /\ g_ext c = g_ext g).
-  { destruct r2; inversion E'; subst; cbn; auto. }
-  destruct Ec as (Ec1 & Ec2 & Ec3).
-  apply graph_eqb_spec; [apply graph_ok_keys; assumption | apply graph_ok_keys; assumption|].
-  split; [|split; [|congruence]].
-  - intros k. rewrite Ec1. destruct (aget ident_eq_dec (g_nodes g) k) as [v|] eqn:Eg.
-    + symmetry. pose proof (keyed_aget ident_eq_dec n_id _ _ _ (gk_nodes _ OK) Eg) as Ek. subst k. apply HAS. exact Eg.
-    + destruct (aget ident_eq_dec (g_nodes c1) k) as [v|] eqn:Ec; [|reflexivity].
-      destruct (S1 _ _ Ec) as [X|[X Y]]; [discriminate|].
-      apply in_map_iff in X. destruct X as [[k' v'] [<- X]]. cbn in Y.
-      pose proof (keyed_In_aget ident_eq_dec n_id _ _ _ (gk_nodes _ OK) X) as Z. cbn in Z. congruence.
-  - apply same_entries_aget; [apply (gk_edges _ OK) | apply (gk_edges _ OKc) | |].
-    + intros k e H. rewrite Ec2. pose proof (proj2 (gk_edges _ OK) _ _ H) as Ek. subst k.
-      apply B. change e with (snd (e_id e, e)). apply in_map. assumption.
-    + intros k e H. apply Dc. assumption.
+  - destruct (IT eq_refl) as [D1 D2]. rewrite D1, D2. reflexivity.
+  - destruct (IF eq_refl) as [D1 D2]. unfold plain_obj, plain_tab in PL. cbn in PL.
+    destruct (PL FG) as [P1 P2]. rewrite D1, D2, P1, P2. reflexivity.
 Qed.
 
 (** * a copied grammar equals its original *)
@@ -283,4 +276,112 @@ Proof.
     + intros o Ho E. specialize (H o k Ho E). lia.
   - intros k L H. apply run_other_unchanged; [lia|].
     intros o Ho E. specialize (H o k Ho E). lia.
+Qed.
+
+(** * a copy shows what its original shows *)
+Lemma graph_copy_match_refl : forall a b d s, graph_copy_match s (ObsG a b d) (ObsG a b d) = true.
+Proof.
+  intros. unfold graph_copy_match.
+  destruct (oobs_eq_dec (ObsG a b d) (ObsG a b d)) as [|N]; [|congruence]. destruct s; reflexivity.
+Qed.
+
+Lemma if_dec_refl : forall {A} (d : forall a b : A, {a = b} + {a <> b}) a, (if d a a then true else false) = true.
+Proof. intros. destruct (d a a); congruence. Qed.
+
+Lemma get_graph_nth : forall os h g, get_graph os h = Some g -> nth_error os h = Some (OG g).
+Proof. intros os h g H. unfold get_graph in H. destruct (nth_error os h) as [[g0|]|]; congruence. Qed.
+
+Section GroupFacts.
+  Context (P : rule -> rule -> Prop) (PL : forall r r', P r r' -> r_lhs r' = r_lhs r).
+
+  Lemma forall2_lhs : forall rs rs', Forall2 P rs rs' -> map r_lhs rs' = map r_lhs rs.
+  Proof. intros rs rs' F. induction F as [|r r' rs rs' H F IH]; cbn; [reflexivity|]. rewrite (PL _ _ H), IH. reflexivity. Qed.
+
+  Lemma groups_shape : forall (gs gs' : list (elabel * list rule)),
+      Forall2 (fun g g' => fst g' = fst g /\ Forall2 P (snd g) (snd g')) gs gs' ->
+      map (fun g => (fst g, map r_lhs (snd g))) gs' = map (fun g => (fst g, map r_lhs (snd g))) gs /\
+      Forall2 P (concat (map snd gs)) (concat (map snd gs')).
+  Proof.
+    intros gs gs' F. induction F as [|g g' gs gs' [H1 H2] F [IH1 IH2]]; cbn; [split; [reflexivity | constructor]|].
+    split; [rewrite H1, (forall2_lhs _ _ H2), IH1; reflexivity | apply Forall2_app; assumption].
+  Qed.
+End GroupFacts.
+
+Lemma forall2_imp : forall {A B} (P Q : A -> B -> Prop) l l', (forall a b, P a b -> Q a b) -> Forall2 P l l' -> Forall2 Q l l'.
+Proof. intros A B P Q l l' H F. induction F; constructor; auto. Qed.
+
+Lemma forall2_combine : forall {A B} (P : A -> B -> Prop) l l', Forall2 P l l' ->
+    forall p, In p (combine l l') -> P (fst p) (snd p).
+Proof.
+  intros A B P l l' F. induction F as [|a b l l' H F IH]; intros p Hp; cbn in Hp; [destruct Hp|].
+  destruct Hp as [<-|Hp]; [exact H | apply IH; assumption].
+Qed.
+
+(** the copy of a grammar shows what the original shows: same class, start symbol, label
+    tables, domains and factors, the same rules under the same left-hand sides in the same
+    order, each right-hand side a fresh graph that shows what the original rhs shows *)
+Theorem h_copy_observe : forall os x x' news,
+    inv_os os -> plain_os os -> hrg_ok os x -> plain_obj (OH x) -> h_copy os x = inl (x', news) ->
+    copy_match true (map obs_obj (os ++ OH x' :: news)) (obs_obj (OH x)) (obs_obj (OH x')) = true.
+Proof.
+  intros os x x' news I PLS OK PLX E.
+  set (fin := os ++ OH x' :: news).
+  remember (map obs_obj fin) as all eqn:EA.
+  assert (F : forall i o, nth_error news i = Some o -> nth_error fin (S (length os) + i) = Some o).
+  { intros i o H. unfold fin. rewrite nth_error_app2 by lia.
+    replace (S (length os) + i - length os) with (S i) by lia. exact H. }
+  assert (APP : forall h g, get_graph os h = Some g -> nth_error fin h = Some (OG g)).
+  { intros h g H. apply get_graph_nth. unfold fin. apply get_graph_app. assumption. }
+  clearbody fin.
+  unfold h_copy in E.
+  destruct (h_new (h_fgg x) (SLabel (h_start x))) as [[c|] r0] eqn:E0.
+  2:{ destruct r0; discriminate. }
+  destruct (copy_groups os (S (length os)) (h_rules x)) as [[gs news0]|] eqn:E1; [|discriminate].
+  inversion E; subst news0. clear E.
+  destruct (h_new_start _ _ _ _ E0) as [ST _].
+  pose proof (copy_groups_pos os _ _ _ _ E1 fin F) as P.
+  destruct (groups_shape (rule_copy_of os fin) (fun r r' H => proj1 H) _ _ P) as [SH FC].
+  pose proof (forall2_lhs (rule_copy_of os fin) (fun r r' H => proj1 H) _ _ FC) as LH.
+  assert (TB : (if h_fgg x then t_dom (h_tab x) else []) = t_dom (h_tab x) /\
+               (if h_fgg x then t_fac (h_tab x) else []) = t_fac (h_tab x)).
+  { destruct (h_fgg x) eqn:FG; [auto|]. unfold plain_obj, plain_tab in PLX. cbn in PLX.
+    destruct (PLX FG) as [-> ->]. auto. }
+  destruct TB as [TD TF].
+  assert (FQ : Forall2 (fun r r' => exists g c0, nth_error all (r_rhs r) = Some (obs_obj (OG g)) /\
+                                                 nth_error all (r_rhs r') = Some (obs_obj (OG c0)) /\
+                                                 obs_obj (OG c0) = obs_obj (OG g))
+                       (concat (map snd (h_rules x))) (concat (map snd gs))).
+  { eapply forall2_imp; [|exact FC]. intros r r' [_ (g & c0 & Hg & Hc & Hf)].
+    exists g, c0. rewrite EA, !nth_error_map.
+    rewrite (APP _ _ Hg), (get_graph_nth _ _ _ Hf). cbn [option_map]. split; [reflexivity|]. split; [reflexivity|].
+    apply g_copy_observe; [eapply get_graph_ok; eauto | apply (PLS _ _ (get_graph_nth _ _ _ Hg)) | assumption]. }
+  clear EA F APP P FC. subst x'.
+  unfold obs_obj, copy_match, obs_tab. cbn [h_fgg h_rules h_start h_tab t_nl t_el t_dom t_fac].
+  rewrite TD, TF, ST, LH, SH.
+  rewrite Nat.eqb_refl. unfold elabel_eqb. rewrite !if_dec_refl. cbn [andb].
+  apply forallb_forall. intros [r r'] Hp.
+  destruct (forall2_combine _ _ _ FQ _ Hp) as (g & c0 & H1 & H2 & H3). cbn [fst snd] in *.
+  rewrite H1, H2, H3. unfold obs_obj. apply graph_copy_match_refl.
+Qed.
+
+Lemma copy_match_graph : forall all g c,
+    obs_obj (OG c) = obs_obj (OG g) -> copy_match true all (obs_obj (OG g)) (obs_obj (OG c)) = true.
+Proof. intros all g c H. rewrite H. unfold obs_obj, copy_match. apply graph_copy_match_refl. Qed.
+
+(** a successful copy SHOWS what its original shows (every accessor, label tables, domains and
+    factor weights included; rules point to fresh copies of the rhs graphs) *)
+Theorem copy_observe : forall s h a,
+    inv s -> plain_ok s -> nth_error (objs s) h = Some a -> snd (step s (Copy h)) = ROk ->
+    let s' := fst (step s (Copy h)) in
+    exists c, nth_error (objs s') (length (objs s)) = Some c /\
+              copy_match true (observe s') (obs_obj a) (obs_obj c) = true.
+Proof.
+  intros s h a I PL Ha R. cbn [step] in *. rewrite Ha in *.
+  destruct a as [g|x].
+  - destruct (g_copy g) as [c|] eqn:C; [|discriminate]. cbn [fst snd objs].
+    exists (OG c). split; [rewrite nth_error_app2 by lia; rewrite Nat.sub_diag; reflexivity|].
+    apply copy_match_graph. apply (g_copy_observe g c (I _ _ Ha) (PL _ _ Ha) C).
+  - destruct (h_copy (objs s) x) as [[c news]|] eqn:C; [|discriminate]. cbn [fst snd objs].
+    exists (OH c). split; [rewrite nth_error_app2 by lia; rewrite Nat.sub_diag; reflexivity|].
+    unfold observe. cbn [objs]. apply h_copy_observe; [exact I | exact PL | apply (I _ _ Ha) | apply (PL _ _ Ha) | assumption].
 Qed.
